@@ -94,6 +94,22 @@ def check(rng, deep):
         if res > 10 * tol * max(1.0, float(np.abs(st[k]).max())) or far > 1e-6 * max(1.0, float(np.abs(st[k]).max())):
             C.push(out, dict(what=f'the reported backward variable {k} of a stage block with two backward variables is not a fixed point of the backward step', input=dict(kind='stage-ss', backward=['Va', 'V'], variable=k),
                              observed=dict(step_residual=res, distance_to_tight_solve=far), signature=dict(op='backward-fixed-point', block='stage', variable=k)))
+    # the shipped discrete-choice stage model: every stage's distribution is a probability distribution, aggregates are distribution-weighted sums, no shock -> no response
+    n += 1
+    dc = m.dchoice
+    ssd = dc.steady_state(m.DCHOICE_CALIB)
+    ints = ssd.internals[dc.name]
+    for st, dd in ints.items():
+        if isinstance(dd, dict) and 'D' in dd:
+            if abs(dd['D'].sum() - 1) > 1e-9 or dd['D'].min() < -1e-12:
+                C.push(out, dict(what='a stage distribution of the discrete-choice model is not a probability distribution', input=dict(kind='dchoice-ss', stage=st), observed=[float(dd['D'].sum()), float(dd['D'].min())], signature=dict(op='mass', block='dchoice')))
+    cs = ints['consav']
+    for O, o in (('A', 'a'), ('C', 'c')):
+        if abs(ssd[O] - np.vdot(cs['D'], cs[o])) > 1e-9 * max(1, abs(ssd[O])):
+            C.push(out, dict(what=f'aggregate {O} of the discrete-choice model is not the distribution-weighted sum of its individual counterpart', input=dict(kind='dchoice-ss'), signature=dict(op='aggregate', block='dchoice')))
+    z = dc.impulse_nonlinear(ssd, {'f': np.zeros(5)}, ['A', 'C'])
+    if max(np.abs(z[k]).max() for k in ('A', 'C')) > 1e-6:          # up to the accuracy of the inner iterations (the test-suite itself subtracts this ghost run)
+        C.push(out, dict(what='the discrete-choice model responds to a zero shock', input=dict(kind='dchoice-ss'), observed=float(max(np.abs(z[k]).max() for k in ('A', 'C'))), signature=dict(op='zero-shock', block='dchoice')))
     # model-level: targets, brackets, fixed point of re-evaluation, all applicable solvers
     mm = M.load()
     flat = mm.flat()
@@ -133,6 +149,10 @@ def check(rng, deep):
 def oracle(ctx, hints, broken):
     try:
         viol, n = check(ctx['rng'], bool(broken) or ctx['tier'] == 'thorough')
+        import io, contextlib
+        with contextlib.redirect_stdout(io.StringIO()):
+            ve, ne = M.check_examples(['rbc', 'krusell_smith', 'hank', 'two_asset'] if ctx['tier'] == 'thorough' or broken else ['rbc', 'krusell_smith'], 'ss')
+        viol, n = viol + ve, n + ne
     except Exception as ex:
         import traceback
         viol, n = [dict(what=f'C07 oracle raised {type(ex).__name__}: {ex}', input=dict(kind='raise', trace=traceback.format_exc()[-800:]), signature=dict(op='raise'))], 1
